@@ -906,6 +906,37 @@ mutp("C09", "seeded_c09c_only_active_set_excludes_new_client", "a newly connecte
 mutp("C07", "seeded_c07c_independent_parts_merged", "event and trigger independence hash to the same part (seeded change c07c)",
      ["C07.R7/"], "seeded/c07c/patch.diff")
 
+mutp("C17", "seeded_c17c_sequence_counter_u16", "the insertion counter that breaks timestamp ties is a wrapping u16 (seeded change c17c)",
+     ["C17.R1/bevy_replicon_example_backend::link_conditioner::TimedMessage/sequence-counter-wide-enough"], "seeded/c17c/patch.diff")
+mutp("C12", "seeded_c12c_tick_counters_u8", "the per-tick message counters are clamped to u8 (seeded change c12c)",
+     ["C12.R4/TickMessages.messages_count/as-wide-as-the-wire-count"], "seeded/c12c/patch.diff")
+
+mutp("C03", "seeded_c03d_merged_despawn_not_counted", "a despawn whose byte range is merged into the previous one is not counted (seeded change c03d)",
+     ["C03.R11/server::replication_messages::updates::Updates::add_despawn/despawns_len-counted-on-every-path"], "seeded/c03d/patch.diff")
+mutp("C05", "seeded_c05d_queue_released_after_new_events", "the client reads the channel first and releases its queue afterwards (seeded change c05d)",
+     ["C05.R9/receive_typed/queue-released-before-new-events"], "seeded/c05d/patch.diff")
+mutp("C02", "seeded_c02d_ack_confirms_arrival_tick", "an acknowledgement sets the entity's tick to the tick at which the ack arrives (seeded change c02d)",
+     ["C02.R8/ack/stores-the-recorded-tick"], "seeded/c02d/patch.diff")
+
+mutp("C04", "seeded_c04d_dead_entity_keeps_mapping", "a despawn record for an entity that is already gone on the client leaves its mapping in place (seeded change c04d)",
+     ["C04.R5/apply_despawn/unmaps-on-every-path"], "seeded/c04d/patch.diff")
+
+mutp("C07", "seeded_c07d_targeted_hash_ignored", "check_protocol returns early for a hash trigger that carries a target (seeded change c07d)",
+     ["C07.R5/check_protocol/every-hash-is-compared"], "seeded/c07d/patch.diff")
+mutp("C09", "seeded_c09d_reset_skipped_before_first_update", "the client reset returns early while no update message has been applied (seeded change c09d)",
+     ["C09.R1/client/client::BufferedMutations/reset-on-disconnect/unconditional"], "seeded/c09d/patch.diff")
+mutp("C10", "seeded_c10d_packing_test_without_mutate_index", "the packing test leaves the mutate index out of the header size (seeded change c10d)",
+     ["C10.R6/send/can_pack-tests-the-sent-size"], "seeded/c10d/patch.diff")
+
+mutp("C12", "seeded_c12d_range_reaching_newest_tick_is_true", "contains_any answers true whenever the range reaches the newest tick (seeded change c12d)",
+     ["C12.R5/server_mutate_ticks::ServerMutateTicks::contains_any/constant-true-only-below-the-window"], "seeded/c12d/patch.diff")
+mutp("C15", "seeded_c15d_reader_rejects_max_flagged_index", "the reader rejects a flagged index above (u32::MAX << 1), forgetting the flag bit (seeded change c15d)",
+     ["C15.R4/layout/reader-accepts-writer-range"], "seeded/c15d/patch.diff")
+mutp("C17", "seeded_c17d_read_budget_drops_message", "a per-frame read budget is tested after the message was read from the stream (seeded change c17d)",
+     ["C17.R3/bevy_replicon_example_backend::client::receive_packets/every-read-message-is-inserted"], "seeded/c17d/patch.diff")
+mutp("C18", "seeded_c18d_rules_prefiltered_by_priority", "rules with a priority above the archetype's component count are skipped before matches() (seeded change c18d)",
+     ["C18.R4/scene::replicate_into/all-rules-in-order"], "seeded/c18d/patch.diff")
+
 # first-sight completeness (shared rule: C07.R6 / C03.R7 / C08.R6)
 mut("C07", "seeded_c07a_rate_limited_components_skipped", "rate-limited components are skipped before the per-client pass unless just added (late-authorized clients never get them)", ["C07.R6/collect_changes/every-component-reaches-clients"],
     ("src/server.rs", """                let ctx = SerializeCtx {
@@ -1221,7 +1252,7 @@ mut("C03", "reverse_map_not_updated", "VacantEntityEntry::insert forgets the rev
     ("src/shared/server_entity_map.rs", "        self.main_entry.insert(value);\n        self.reverse_map.insert(value, key);", "        self.main_entry.insert(value);\n        let _ = key;"))
 mut("C03", "map_insert_not_swapped", "ServerEntityMap::insert stores the reverse direction unswapped", ["key-value-swapped"],
     ("src/shared/server_entity_map.rs", "        self.client_to_server.insert(client_entity, server_entity);", "        self.client_to_server.insert(server_entity, client_entity);"))
-mut("C03", "despawn_keeps_mapping", "apply_despawn despawns without removing the mapping", ["removes-mapping-it-despawns"],
+mut("C03", "despawn_keeps_mapping", "apply_despawn despawns without removing the mapping", ["C03.R5/apply_despawn/unmaps"],
     ("src/client.rs", """    if let Some(client_entity) = params
         .entity_map
         .server_entry(server_entity)
@@ -1623,5 +1654,32 @@ benign("relation_edges_removed_in_while_let", "remove_relation removes matching 
         {
             self.graph.remove_edge(edge);
         }"""))
+
+benign("heap_sequence_wrapping_add_u64", "the 64-bit insertion counter is incremented with wrapping_add",
+    ("bevy_replicon_example_backend/src/link_conditioner.rs", "        self.next_sequence += 1;", "        self.next_sequence = self.next_sequence.wrapping_add(1);"))
+benign("tick_counter_saturating_add", "the received counter is incremented with saturating_add",
+    ("src/client/server_mutate_ticks.rs", "        self.received += 1;", "        self.received = self.received.saturating_add(1);"))
+
+benign("despawn_unmaps_by_key_then_despawns", "apply_despawn removes the mapping by key first and then despawns the entity it got from the removed entry (let-else style)",
+    ("src/client.rs", """    if let Some(client_entity) = params
+        .entity_map
+        .server_entry(server_entity)
+        .remove()
+        .and_then(|entity| world.get_entity_mut(entity).ok())
+    {
+        trace!("applying despawn for `{}`", client_entity.id());
+        let ctx = DespawnCtx { message_tick };
+        (params.registry.despawn)(&ctx, client_entity);
+    }
+""", """    let Some(entity) = params.entity_map.server_entry(server_entity).remove() else {
+        return Ok(());
+    };
+    let Ok(client_entity) = world.get_entity_mut(entity) else {
+        return Ok(());
+    };
+    trace!("applying despawn for `{}`", client_entity.id());
+    let ctx = DespawnCtx { message_tick };
+    (params.registry.despawn)(&ctx, client_entity);
+"""))
 
 BENIGN = B
